@@ -818,13 +818,13 @@ theorem absSegs_top_or (segs : List Seg) {a b : Abs} (h : Abs.LE a b) (es : List
   | @loop alts iters rest segs hi _ ih =>
     rw [absPath_append]
     simp only [absSegs, absSeg]
-    cases hc : (alts.all fun es => (absPath es (absIter 16 alts b)).le (absIter 16 alts b)) with
+    cases hc : (alts.all fun es => (absPath es (absIter 4 alts b)).le (absIter 4 alts b)) with
     | false => exact ih (Abs.LE.top _)
     | true =>
-      have hx : ∀ es ∈ alts, Abs.LE (absPath es (absIter 16 alts b)) (absIter 16 alts b) := by
+      have hx : ∀ es ∈ alts, Abs.LE (absPath es (absIter 4 alts b)) (absIter 4 alts b) := by
         intro es hes
         exact (Abs.le_iff _ _).mp (List.all_eq_true.mp hc es hes)
-      exact ih (iters_below hx iters hi (h.trans (absIter_ge 16 alts b)))
+      exact ih (iters_below hx iters hi (h.trans (absIter_ge 4 alts b)))
 
 /-- **every unrolling of a segmented path that passes the check satisfies the policy** -/
 theorem segsOK_expands {segs : List Seg} (h : segsOK segs = true) {es : List Event} (he : Expands segs es) :
@@ -853,14 +853,15 @@ theorem exitsOK_anti (ex : List String) (es : List Event) {a b : Abs} (h : Abs.L
       simp only [exitsOK, Bool.and_eq_true, Bool.or_eq_true, Bool.not_eq_true'] at hb ⊢
       refine ⟨⟨?_, ?_⟩, ih h hb.2⟩
       · rcases hb.1.1 with c | c
-        · exact Or.inl c
-        · exact Or.inr (h.cleanD c)
-      · rcases hb.1.2 with c | c
-        · exact Or.inl c
-        · right
+        · exact Or.inl (h.cleanD c)
+        · exact Or.inr c
+      · rcases hb.1.2 with (c | c) | c
+        · left; left
           cases hq : a.rAnti with
           | false => rfl
           | true => rw [h.rAnti hq] at c; exact absurd c (by simp)
+        · exact Or.inl (Or.inr c)
+        · exact Or.inr c
     | _ => exact ih (absEvent_mono _ h) hb
 
 /-- at a non-exempt `mayRaise` point of a path that passes the check, the prefix executed so far leaves
@@ -874,11 +875,12 @@ theorem exitsOK_prefix (ex : List String) (pre rest : List Event) (site : String
   simp only [Abs.clean, Bool.and_eq_true, Bool.not_eq_true']
   refine ⟨?_, ?_⟩
   · rcases h.2.1.1 with c | c
+    · exact c
     · exact absurd c (by simp)
+  · rcases h.2.1.2 with (c | c) | c
     · exact c
-  · rcases h.2.1.2 with c | c
-    · rcases c with c | c <;> exact absurd c (by simp)
-    · exact c
+    · exact absurd c (by simp)
+    · exact absurd c (by simp)
 
 theorem pathExitsOK_prefix (ex : List String) (pre rest : List Event) (site : String)
     (h : pathExitsOK ex (pre ++ .mayRaise site :: rest) = true) (hs : ex.contains site = false)
@@ -893,10 +895,10 @@ theorem loop_postfix (alts : List (List Event)) (b : Abs) :
     Abs.LE b (absSeg ⟨true, alts⟩ b) ∧
     ∀ es ∈ alts, Abs.LE (absPath es (absSeg ⟨true, alts⟩ b)) (absSeg ⟨true, alts⟩ b) := by
   simp only [absSeg]
-  cases hc : (alts.all fun es => (absPath es (absIter 16 alts b)).le (absIter 16 alts b)) with
+  cases hc : (alts.all fun es => (absPath es (absIter 4 alts b)).le (absIter 4 alts b)) with
   | false => exact ⟨Abs.LE.top _, fun es _ => Abs.LE.top _⟩
   | true =>
-    exact ⟨absIter_ge 16 alts b, fun es hes => (Abs.le_iff _ _).mp (List.all_eq_true.mp hc es hes)⟩
+    exact ⟨absIter_ge 4 alts b, fun es hes => (Abs.le_iff _ _).mp (List.all_eq_true.mp hc es hes)⟩
 
 theorem iters_exits {ex : List String} {alts : List (List Event)} {x : Abs}
     (hx : ∀ es ∈ alts, Abs.LE (absPath es x) x) (hex : ∀ es ∈ alts, exitsOK ex es x = true)
